@@ -465,6 +465,12 @@ func Compile(e *Env, rs []*GenResult, cover bool) (driver string, log string, er
 	}
 	sort.Strings(ids)
 	var logb strings.Builder
+	for _, id := range ids {
+		// a generated file that does not parse cannot be laid out reliably (its package clause is unknown)
+		if r := byID[id]; r.AstErr != "" && r.CompileErr == "" {
+			r.CompileErr = "generated file does not parse: " + r.AstErr
+		}
+	}
 	for attempt := 0; attempt < 6; attempt++ {
 		args := []string{"build", "-gcflags=-e"}
 		var pkgs []string
@@ -488,6 +494,19 @@ func Compile(e *Env, rs []*GenResult, cover bool) (driver string, log string, er
 		out := string(se)
 		locs := errPkgRe.FindAllStringSubmatchIndex(out, -1)
 		if len(locs) == 0 {
+			// errors reported before compilation proper (package clause clashes, import cycles): attribute by path
+			hit := false
+			for _, line := range strings.Split(out, "\n") {
+				for _, id := range ids {
+					if r := byID[id]; r.CompileErr == "" && (strings.HasPrefix(line, id+"/") || strings.Contains(line, "/src/"+id+"/")) {
+						r.CompileErr += line + "\n"
+						hit = true
+					}
+				}
+			}
+			if hit {
+				continue
+			}
 			return "", logb.String(), fmt.Errorf("go build failed without attributable package:\n%s", out)
 		}
 		for i, loc := range locs {
